@@ -1,6 +1,6 @@
 \* intended state graph, quotient by the value state, 3 trees, edit universe u3 (Bare s, f t): every transition logged (TR)
 CONSTANTS DeepCopyRebindsParents = TRUE CopyHookBoundToCopy = TRUE FlattenCopiesTop = FALSE
-          Universe = "u3" MaxTrees = 3 MaxOps = 1000000
+          Lib = "flat" Universe = "u3" MaxTrees = 3 MaxOps = 1000000
 INIT Init
 NEXT Next
 VIEW ViewVal
